@@ -1,7 +1,9 @@
 #!/usr/bin/env python3
 """Copies confirmed seeded changes from a staging area into /verif/seeded/<Cxx-k>/ (patch.diff, demo.py, meta.json).
 
-usage: store_seeds.py <staging root, e.g. /tmp> <confirm log>... ; check outcomes are read from --checks <file> (output of tools/seed_checks.sh)"""
+usage: store_seeds.py <staging root, e.g. /tmp> <confirm log>... ; check outcomes are read from --checks <file> (output of tools/seed_checks.sh);
+--prefix S2- names the stored directories S2-Cxx-k (later rounds of the campaign); --first <json> records the outcome of the first evaluation
+(before any rule was added in response), as {"Cxx-k": "C05=1 C18=2"}"""
 import json
 import os
 import re
@@ -18,17 +20,27 @@ def main():
         i = args.index("--checks")
         checks_file = args[i + 1]
         del args[i:i + 2]
+    prefix, first = "", {}
+    if "--prefix" in args:
+        i = args.index("--prefix")
+        prefix = args[i + 1]
+        del args[i:i + 2]
+    if "--first" in args:
+        i = args.index("--first")
+        first = json.load(open(args[i + 1]))
+        del args[i:i + 2]
     root, logs = args[0], args[1:]
     confirmed = {}
     for lg in logs:
         for line in open(lg):
-            m = re.match(r"(\S+/seeded_(C\d\d)/(\d)) pristine_demo=(\d+) patched_demo=(\d+) suite: (.*)", line.strip())
+            m = re.match(r"(\S+/seeded_(C\d\d)/(\d)) pristine_demo=(\d+) patched_demo=(\d+) suite: (.*)", line.strip()) or \
+                re.match(r"(\S+/seeded\d_S\d/(C\d\d)-(\d)) pristine_demo=(\d+) patched_demo=(\d+) suite: (.*)", line.strip())
             if m:
                 confirmed[(m.group(2), m.group(3))] = dict(dir=m.group(1), pristine_demo_exit=int(m.group(4)), patched_demo_exit=int(m.group(5)), suite=m.group(6))
     outcomes = {}
     if checks_file:
         for line in open(checks_file):
-            m = re.match(r"\S+/seeded_(C\d\d)/(\d) :(.*)", line.strip())
+            m = re.match(r"\S+/seeded_(C\d\d)/(\d) :(.*)", line.strip()) or re.match(r"\S+/seeded\d_S\d/(C\d\d)-(\d) :(.*)", line.strip())
             if m:
                 outcomes[(m.group(1), m.group(2))] = {k: int(v) for k, v in (x.split("=") for x in m.group(3).split())}
     n = 0
@@ -37,7 +49,7 @@ def main():
         if not ok:
             print("NOT CONFIRMED", pid, k, c)
             continue
-        dst = os.path.join(VERIF, "seeded", f"{pid}-{k}")
+        dst = os.path.join(VERIF, "seeded", f"{prefix}{pid}-{k}")
         os.makedirs(dst, exist_ok=True)
         shutil.copy(os.path.join(c["dir"], "patch.diff"), os.path.join(dst, "patch.diff"))
         shutil.copy(os.path.join(c["dir"], "demo.py"), os.path.join(dst, "demo.py"))
@@ -47,7 +59,7 @@ def main():
         unknown = sorted(p for p, rc in oc.items() if rc == 2)
         meta = {
             "property": pid,
-            "seed": f"{pid}-{k}",
+            "seed": f"{prefix}{pid}-{k}",
             "what_it_needs_to_manifest": notes,
             "confirmed": {
                 "how": "tools/seed_confirm.sh: scratch worktree of /repo HEAD; demo.py on the pristine tree, patch applied with `git apply`, demo.py again, "
@@ -61,6 +73,12 @@ def main():
                 "verdict": "detected" if detected else ("flagged as unanalysable (exit 2), no verdict" if unknown else "missed"),
             },
         }
+        if f"{pid}-{k}" in first:
+            fo = {a: int(b) for a, b in (x.split("=") for x in first[f"{pid}-{k}"].split())}
+            meta["static_checks"]["first_evaluation (before any rule was added in response to this round)"] = {
+                "violation_reported_by": sorted(p for p, rc in fo.items() if rc == 1), "analysis_error_only": sorted(p for p, rc in fo.items() if rc == 2),
+                "verdict": "detected" if fo.get(pid) == 1 else ("detected by another property's check" if 1 in fo.values() else
+                                                               ("flagged as unanalysable (exit 2), no verdict" if 2 in fo.values() else "missed"))}
         with open(os.path.join(dst, "meta.json"), "w") as f:
             json.dump(meta, f, indent=1)
         n += 1
